@@ -30,7 +30,7 @@ func init() {
 		Race:      true,
 		RaceFiles: []string{"version.go", "channel.go", "serveconn.go", "csession.go"},
 		Shards:    shards(8, 16),
-		Timeout:   timeouts(4*time.Minute, 40*time.Minute),
+		Timeout:   timeouts(12*time.Minute, 90*time.Minute),
 		MinEvals:  100,
 		Required:  []string{"server:handshakes", "server:refused-too-small", "server:refused-not-version", "server:exact-fit-delivered", "server:max-read", "server:oversize-result", "client:handshakes", "client:exact-fit-accepted", "client:max-read", "client:max-write", "client:long-strings", "frames_length_checked"},
 		Run:       runC10,
